@@ -6,8 +6,8 @@ Import ListNotations.
 Require Import Aurora.C31.Model.
 Local Open Scope N_scope.
 
-Notation H := heap_mem.
-Notation V := value_mem.
+Notation HM := heap_mem.
+Notation VM := value_mem.
 
 (** ---- association lists ---- *)
 Lemma get_set_same {A} k (v : A) l : get k (set k v l) = Some v.
@@ -39,7 +39,7 @@ Lemma ok_ext h h' l v : hext h h' -> ok h l v -> ok h' l v.
 Proof. intros [A B] [C D]. split; [lia|]. rewrite B; auto. Qed.
 
 Lemma alloc_spec h v l h' :
-  alloc H h v = (l, h') -> ok h' l v /\ hext h h' /\ l = next h /\ next h' = next h + 1.
+  alloc HM h v = (l, h') -> ok h' l v /\ hext h h' /\ l = next h /\ next h' = next h + 1.
 Proof.
   cbn. intros E. inversion E; subst l h'; clear E. unfold ok, hext, nread, get0. cbn [cells next get].
   rewrite N.eqb_refl. repeat split; try lia.
@@ -47,14 +47,14 @@ Proof.
 Qed.
 
 (** ---- relation between a heap record and a value record ---- *)
-Definition trel (h : nheap) (t : traffic H) (tv : traffic V) : Prop :=
+Definition trel (h : nheap) (t : traffic HM) (tv : traffic VM) : Prop :=
   ok h (f_pb t) (f_pb tv) /\ ok h (f_rchain t) (f_rchain tv) /\ ok h (f_tchain t) (f_tchain tv) /\
   ok h (f_rcheque t) (f_rcheque tv) /\ ok h (f_tcheque t) (f_tcheque tv) /\
   ok h (f_rtraffic t) (f_rtraffic tv) /\ ok h (f_ttraffic t) (f_ttraffic tv) /\ f_status t = f_status tv.
 Lemma trel_ext h h' t tv : hext h h' -> trel h t tv -> trel h' t tv.
 Proof. intros E (A&B&C&D&F&G&I&J). unfold trel. repeat (split; [eapply ok_ext; eassumption|]). exact J. Qed.
 
-Definition rrel (h : nheap) (r : list (addr * traffic H)) (rv : list (addr * traffic V)) : Prop :=
+Definition rrel (h : nheap) (r : list (addr * traffic HM)) (rv : list (addr * traffic VM)) : Prop :=
   Forall2 (fun x y => fst x = fst y /\ trel h (snd x) (snd y)) r rv.
 Lemma rrel_ext h h' r rv : hext h h' -> rrel h r rv -> rrel h' r rv.
 Proof.
@@ -86,7 +86,7 @@ Definition sim (s : hstate) (v : vstate) : Prop :=
   rrel (hp s) (recs s) (recs v) /\ ok (hp s) (bal s) (bal v) /\
   m_pb s = m_pb v /\ m_bp s = m_bp v /\ dk s = dk v.
 
-Lemma sum_field_sim h r rv (f : traffic H -> N) (fv : traffic V -> Z) :
+Lemma sum_field_sim h r rv (f : traffic HM -> N) (fv : traffic VM -> Z) :
   rrel h r rv -> (forall t tv, trel h t tv -> nread h (f t) = fv tv) ->
   forall acc, fold_left (fun acc kv => (acc + nread h (f (snd kv)))%Z) r acc
             = fold_left (fun acc kv => (acc + fv (snd kv))%Z) rv acc.
@@ -95,18 +95,18 @@ Proof.
   rewrite (Hf _ _ T). apply IH.
 Qed.
 
-Lemma available_sim s v : sim s v -> available_balance H s = available_balance V v.
+Lemma available_sim s v : sim s v -> available_balance HM s = available_balance VM v.
 Proof.
-  intros (R & [_ B] & _). unfold available_balance, sum_field. cbn [read H V].
+  intros (R & [_ B] & _). unfold available_balance, sum_field. cbn [read HM VM].
   rewrite (sum_field_sim _ _ _ f_rchain f_rchain R), (sum_field_sim _ _ _ f_rtraffic f_rtraffic R).
   - now rewrite B.
   - intros t tv (_&_&_&_&_&[_ E]&_). exact E.
   - intros t tv (_&[_ E]&_). exact E.
 Qed.
 
-Lemma max_loc_sim h (u : heap V) a b va vb :
-  ok h a va -> ok h b vb -> ok h (max_loc H h a b) (max_loc V u va vb).
+Lemma max_loc_sim h (u : heap VM) a b va vb :
+  ok h a va -> ok h b vb -> ok h (max_loc HM h a b) (max_loc VM u va vb).
 Proof.
-  intros [A1 A2] [B1 B2]. unfold max_loc. cbn [read H V]. rewrite A2, B2.
+  intros [A1 A2] [B1 B2]. unfold max_loc. cbn [read HM VM]. rewrite A2, B2.
   destruct (va <? vb)%Z; split; auto.
 Qed.
